@@ -3,9 +3,9 @@ package main
 // Verification-condition context: symbolic state, heaps, fresh names, obligations.
 
 import (
-	"os"
 	"fmt"
 	"go/types"
+	"os"
 	"sort"
 	"strings"
 
@@ -75,14 +75,14 @@ type Obligation struct {
 	Cover   bool
 	Tags    []string
 	// results
-	Status  string // discharged, failed, unknown
-	Solver  string
-	Seconds float64
-	Model   string
-	Query   string
-	known   string
+	Status    string // discharged, failed, unknown
+	Solver    string
+	Seconds   float64
+	Model     string
+	Query     string
+	known     string
 	candidate string
-	replay  *replayResult
+	replay    *replayResult
 	// case split: conditions (return sites) whose disjunction is the guard; when the obligation as a whole
 	// is not decided it is proved once per case (each case adds its condition as a hypothesis)
 	Cases []string
@@ -114,33 +114,33 @@ type VC struct {
 	oblCount  map[string]int
 	entry     *State
 
-	usedSpecs   map[string]bool
-	havocked    map[string]bool
-	inlinedFns  map[string]bool
-	unsupported map[string]bool
-	boxUsed     map[string]bool
-	quiet       int // >0: speculative run, do not record obligations
-	exemptC03   int // >0: executing below a declared error swallow
+	usedSpecs    map[string]bool
+	havocked     map[string]bool
+	inlinedFns   map[string]bool
+	unsupported  map[string]bool
+	boxUsed      map[string]bool
+	quiet        int        // >0: speculative run, do not record obligations
+	exemptC03    int        // >0: executing below a declared error swallow
 	swallowStack [][]string // declared swallows of the frames on the inlining stack
-	globals     []string // unconditional facts about uninterpreted symbols (never rolled back)
-	rawDecls    []string
-	declIndex   map[string]int
-	defCache    map[string]defEntry
-	factCache   map[string]int
-	writeLog    []writeRec
-	indexTerms  []string     // non-constant slice index terms of the executed code (instantiation hints)
-	readLogs    []*[]readRec // active macro expansions: which state components their bodies read
-	targetFn    *ssa.Function // the function under verification, its parameter values and merged results (replay)
-	paramVals   []Val
-	resultVals  []Val
-	calleeSl    map[string]bool
-	retConds    []string     // reach conditions of the return sites of the function under verification (depth 0)
-	catchStack  []*catchCtx // functions with a deferred recover() that are being executed (innermost last)
-	recoverVals []string    // what recover() returns in the deferred closure being executed
-	nextFreeVars []Val      // bindings of the closure about to be executed
-	allocNames  map[string]int // allocation constants -> position in decls
-	curFn       []*ssa.Function
-	maxDepth    int
+	globals      []string   // unconditional facts about uninterpreted symbols (never rolled back)
+	rawDecls     []string
+	declIndex    map[string]int
+	defCache     map[string]defEntry
+	factCache    map[string]int
+	writeLog     []writeRec
+	indexTerms   []string      // non-constant slice index terms of the executed code (instantiation hints)
+	readLogs     []*[]readRec  // active macro expansions: which state components their bodies read
+	targetFn     *ssa.Function // the function under verification, its parameter values and merged results (replay)
+	paramVals    []Val
+	resultVals   []Val
+	calleeSl     map[string]bool
+	retConds     []string       // reach conditions of the return sites of the function under verification (depth 0)
+	catchStack   []*catchCtx    // functions with a deferred recover() that are being executed (innermost last)
+	recoverVals  []string       // what recover() returns in the deferred closure being executed
+	nextFreeVars []Val          // bindings of the closure about to be executed
+	allocNames   map[string]int // allocation constants -> position in decls
+	curFn        []*ssa.Function
+	maxDepth     int
 }
 
 func (e *Engine) newVC(fnName string, slice map[string]bool, safety bool) *VC {
